@@ -1,7 +1,7 @@
 (* Properties_C11.v — C11 "regular-expression rewrites accept exactly the same language".
    Only statements closed by [exact]; see Proofs_Regex*.v.  Naming: _partial = holds under the stated guard,
    _refuted = the unguarded statement is false, with a concrete witness. *)
-From GC Require Import Base Model_Regex Model_RegexSimplify Proofs_Regex Proofs_RegexRules Proofs_RegexSimplify Proofs_RegexWalk.
+From GC Require Import Base Model_Regex Model_RegexSimplify Proofs_Regex Proofs_RegexRules Proofs_RegexSimplify Proofs_RegexWalk Proofs_RegexWalkS Proofs_RegexLit Proofs_RegexPrint Model_RegexText Proofs_RegexText.
 
 (* observational equivalence gives the same FindStringSubmatchIndex vector on every subject *)
 Theorem C11_equiv_same_matches : forall a b n, req a b -> forall s, go_vec n (find a s) = go_vec n (find b s).
@@ -92,17 +92,70 @@ Theorem C11_norm_sound : forall e, req (norm e) e.
 Proof. exact (norm_sound). Qed.
 Print Assumptions C11_norm_sound.
 
-(* One pass of the CURRENT simplifier (after the fix commits), tree level, by induction over the walker:
-   for every tree of the capture-free, flag-free fragment (in_fragment: the state-free elaboration succeeds)
-   that avoids the guards (avoids_defects: decidable, syntactic, mirrors the walker), the emitted tree has the
-   same groups (none), is observationally equivalent (same FindStringSubmatchIndex on every subject) and stays
-   inside the domain in which the matcher model is Go's semantics (model_exact: every loop body consumes). *)
-Theorem C11_simplify_sound_partial : forall e, in_fragment e = true -> avoids_defects e = true ->
+(* One pass of the CURRENT simplifier (after the fix commits), tree level, by induction over the walker, carried
+   out against the full elaboration (flags in effect, next capture index, capture names are threaded):
+   for every tree that elaborates inside the domain in which the matcher model is Go's semantics (in_fragmentS =
+   model_exact: capture groups, named groups, flag groups (?i:..), flag-only groups (?i) included; every loop body
+   consumes) and avoids the guards (avoids_defectsS: decidable, syntactic, mirrors the walker: merged/folded
+   copies are one tree that declares no group and lets no flag escape, a merged atom always consumes, class-table
+   hits are not the recorded-defect entries, enumerated ranges have ASCII bounds, prefix/suffix factoring only in
+   its sound instances - longer alternative first, or `x|hx` with x not starting with h - and only in trees
+   without flag groups, the two literals' Values being the texts of their characters), the emitted tree declares
+   the same groups with the same numbers and names, is observationally equivalent (same FindStringSubmatchIndex
+   on every subject) and stays inside the exactness domain.
+   Full statement (no guard) is false: see the _refuted theorems below. *)
+Theorem C11_simplify_sound_partial : forall e, in_fragmentS e = true -> avoids_defectsS e = true ->
+  exists x y n names, den_top e = Some (x, n, names) /\ den_top (simp_ast e) = Some (y, n, names) /\ req y x /\
+              model_exact (simp_ast e) = true /\
+              forall subject, find_go (simp_ast e) subject = find_go e subject.
+Proof. exact simplify_sound_S. Qed.
+Print Assumptions C11_simplify_sound_partial.
+
+(* Any number of passes: each pass starts from a tree in the fragment, and the tree the next pass starts from means
+   what the previous pass emitted (decidable link: equal normal forms and group declarations, evaluated by the
+   kernel; whether Go's parser reads the emitted TEXT that way is the text-level question) *)
+Theorem C11_simplify_chain_sound_partial : forall rest t, chain_ok t rest = true ->
+  exists a b n names, den_top t = Some (a, n, names) /\ den_top (chain_final t rest) = Some (b, n, names) /\ req b a /\
+              model_exact (chain_final t rest) = true /\
+              forall subject, find_go (chain_final t rest) subject = find_go t subject.
+Proof. exact chain_sound. Qed.
+Print Assumptions C11_simplify_chain_sound_partial.
+
+(* The FINAL rewrite of the two-pass driver (t2 = the parser's tree of the first pass's text): the tree whose text
+   the checker prints is equivalent to the original pattern *)
+Theorem C11_simplify_final_sound_partial : forall t1 t2, final_ok t1 t2 = true ->
+  exists a b n names, den_top t1 = Some (a, n, names) /\ den_top (final_tree t1 t2) = Some (b, n, names) /\ req b a /\
+              model_exact (final_tree t1 t2) = true /\
+              forall subject, find_go (final_tree t1 t2) subject = find_go t1 subject.
+Proof. exact final_sound. Qed.
+Print Assumptions C11_simplify_final_sound_partial.
+
+(* how elaboration changes the state: no flag escapes an expression without a top-level flag-only group, and the
+   group counter and names move only where a capture group is declared *)
+Theorem C11_elaboration_state_law : forall e st x st', den e st = Some (x, st') ->
+  (leaks e = false -> d_fl st' = d_fl st) /\ (hasCapture e = false -> d_next st' = d_next st /\ d_names st' = d_names st).
+Proof. exact den_state. Qed.
+Print Assumptions C11_elaboration_state_law.
+
+Example C11_fragment_with_groups_satisfiable :
+  pass_ok ex_capture_factor = true /\ simp_text ex_capture_factor = "(foo?)(?P<n>a)x" /\
+  pass_ok ex_flag_group = true /\ simp_text ex_flag_group = "(?i:kb+)(c) {3}".
+Proof. exact examples_S. Qed.
+Print Assumptions C11_fragment_with_groups_satisfiable.
+
+(* repaired: `x|hx` is no longer factored (only `hx|x` is); the routine before the fixes still differs on "aaa" *)
+Theorem C11_suffix_factoring_under_fold_fixed :
+  simp_score t_suffix_fold = 0 /\ differ t_suffix_fold (simp_ast_prefix t_suffix_fold) "aaa".
+Proof. exact suffix_factoring_under_fold_fixed. Qed.
+Print Assumptions C11_suffix_factoring_under_fold_fixed.
+
+(* the earlier, narrower form (no capture group, no flag group, no factoring), state-free elaboration *)
+Theorem C11_simplify_sound_plain_partial : forall e, in_fragment e = true -> avoids_defects e = true ->
   exists x y, den_top e = Some (x, 0, []) /\ den_top (simp_ast e) = Some (y, 0, []) /\ req y x /\
               model_exact (simp_ast e) = true /\
               forall subject, find_go (simp_ast e) subject = find_go e subject.
 Proof. exact simplify_sound_fragment. Qed.
-Print Assumptions C11_simplify_sound_partial.
+Print Assumptions C11_simplify_sound_plain_partial.
 
 (* the dialect of the claim: the checker issues diagnostics only at call sites that compile the pattern in the
    Perl dialect; the tie compares the set of call kinds with diagnostics with [reacting_calls] on every run *)
@@ -218,3 +271,121 @@ Print Assumptions C11_empty_alt_branch_factored_prefix_refuted.
 Example C11_certified_satisfiable : certified doc_example = true /\ simp_text doc_example = "(?:[abc]) {3}[a-z]+".
 Proof. exact (conj doc_example_certified doc_example_text). Qed.
 Print Assumptions C11_certified_satisfiable.
+
+(* ---------- text level: the sub-languages in which the re-lexing defects live (Model_RegexText: the lexer and
+   the class parser of the library the checker uses, tied to the real parser on every class node and every literal
+   concatenation of every generated pattern) ---------- *)
+
+(* tokens -> class items: under the guard "a `-` item that is not last does not follow something that can start a
+   range" (and well-formed items) the items are read back unchanged *)
+Theorem C11_class_items_roundtrip_partial : forall items prev toks,
+  items_ok prev items = true -> items_toks items = Some toks -> parse_items prev toks = (olist prev ++ items)%list.
+Proof. exact parse_items_roundtrip. Qed.
+Print Assumptions C11_class_items_roundtrip_partial.
+
+(* text -> tokens inside a class: guard = no bare `\`, `-`, `]`; a bare `[` is not followed by `:` *)
+Theorem C11_class_lex_roundtrip_partial : forall ts rest fuel,
+  ctoks_ok ts = true -> (String.length (toks_text ts) < fuel)%nat -> lex_body fuel (toks_text ts ++ "]" ++ rest) = Some (ts, rest).
+Proof. exact lex_body_roundtrip. Qed.
+Print Assumptions C11_class_lex_roundtrip_partial.
+
+(* print-then-parse of a whole class node, in any right context *)
+Theorem C11_class_print_parse_partial : forall (neg : bool) v items toks rest,
+  toks <> [] -> items_ok None items = true -> items_toks items = Some toks -> ctoks_ok toks = true ->
+  (neg = false -> first_b (toks_text toks) <> 94%N) ->
+  exists v', parse_class (print (X (if neg then OpNegCharClass else OpCharClass) v items) ++ rest) =
+             Some (X (if neg then OpNegCharClass else OpCharClass) v' items, rest).
+Proof. exact class_print_parse. Qed.
+Print Assumptions C11_class_print_parse_partial.
+
+(* literal runs: guard = a bare `{` is not followed by a digit, a one-digit octal escape is not followed by an octal digit *)
+Theorem C11_literals_lex_roundtrip_partial : forall ts fuel,
+  ltoks_ok ts = true -> (String.length (toks_text ts) < fuel)%nat -> lex_lits fuel (toks_text ts) = Some ts.
+Proof. exact lex_lits_roundtrip. Qed.
+Print Assumptions C11_literals_lex_roundtrip_partial.
+
+(* the same in any right context: the run is read back and lexing continues with the text that follows *)
+Theorem C11_literals_lex_run_partial : forall ts rest fuel,
+  ltoks_ok_in ts rest = true -> (String.length (toks_text ts) + String.length rest < fuel)%nat ->
+  lex_lits fuel (toks_text ts ++ rest) = option_map (app ts) (lex_lits (fuel - List.length ts) rest).
+Proof. exact lex_lits_run. Qed.
+Print Assumptions C11_literals_lex_run_partial.
+
+(* the guards evaluated on whole trees: the five witnesses of the open re-lexing classes all fail them *)
+Example C11_text_guards_on_trees :
+  text_guards_ok t_unwrap_g_after = true /\ text_guards_ok (simp_ast t_unwrap_g) = false /\
+  text_guards_ok (simp_ast t_oct) = false /\ text_guards_ok (simp_ast t_rng2) = false /\
+  text_guards_ok (simp_ast t_esc_rep) = false /\ text_guards_ok (simp_ast t_esc_posix) = false.
+Proof. exact text_guards_examples. Qed.
+Print Assumptions C11_text_guards_on_trees.
+
+Theorem C11_relex_range_enumeration_refuted :
+  items_ok None rl_range_items = false /\
+  items_toks rl_range_items = Some [TChar "a"; TChar "b"; TMinus; TChar "x"] /\
+  parse_items None [TChar "a"; TChar "b"; TMinus; TChar "x"] <> rl_range_items /\
+  option_map fst (parse_class "[ab-x]") = Some t_rng2_after.
+Proof. exact relex_range_enumeration_refuted. Qed.
+Print Assumptions C11_relex_range_enumeration_refuted.
+
+Theorem C11_relex_escape_removal_posix_refuted :
+  ctoks_ok rl_posix_toks = false /\
+  lex_body 20 (toks_text rl_posix_toks ++ "]" ++ "]") <> Some (rl_posix_toks, "]") /\
+  option_map fst (parse_class "[[:alpha:]]") = Some t_esc_posix_after.
+Proof. exact relex_escape_removal_posix_refuted. Qed.
+Print Assumptions C11_relex_escape_removal_posix_refuted.
+
+Theorem C11_relex_escape_removal_repeat_refuted :
+  ltoks_ok rl_repeat_toks = false /\ lex_literals (toks_text rl_repeat_toks) = Some [TChar "a"; TRepeat "{1,2}"].
+Proof. exact relex_escape_removal_repeat_refuted. Qed.
+Print Assumptions C11_relex_escape_removal_repeat_refuted.
+
+Theorem C11_relex_unwrap_repeat_refuted :
+  ltoks_ok rl_unwrap_toks = false /\ lex_literals (toks_text rl_unwrap_toks) = Some [TChar "a"; TRepeat "{2}"].
+Proof. exact relex_unwrap_repeat_refuted. Qed.
+Print Assumptions C11_relex_unwrap_repeat_refuted.
+
+Theorem C11_relex_unwrap_octal_refuted :
+  ltoks_ok rl_octal_toks = false /\ lex_literals (toks_text rl_octal_toks) = Some [TEsc OpEscapeOctal "\01"].
+Proof. exact relex_unwrap_octal_refuted. Qed.
+Print Assumptions C11_relex_unwrap_octal_refuted.
+
+Example C11_text_guards_satisfiable :
+  ltoks_ok [TChar "a"; TChar "{"; TChar "x"; TEsc OpEscapeOctal "\0"; TChar "9"; TEsc OpEscapeMeta "\."; TEsc OpEscapeChar "\d"] = true /\
+  ctoks_ok [TChar "a"; TMinus; TChar "c"; TChar "["; TChar "x"; TPosix "[:alpha:]"; TEsc OpEscapeMeta "\]"; TEsc OpEscapeChar "\d"; TMinus] = true /\
+  items_ok None [X OpCharRange "a-c" [X OpChar "a" []; X OpChar "c" []]; X OpChar "-" []; X OpChar "x" []; X OpChar "-" []] = true.
+Proof. exact text_guards_satisfiable. Qed.
+Print Assumptions C11_text_guards_satisfiable.
+
+(* ---------- the two factoring forms with the SHORTER alternative first, for arbitrary literals ---------- *)
+
+(* x|xt => xt? is wrong for EVERY literal x and rune t: on the subject xt the alternation ends after x *)
+Theorem C11_prefix_shorter_first_all_refuted : forall rs t,
+  find (RAlt (lit rs) (lit (rs ++ [t])%list)) (rs ++ [t])%list <> find (RCat (lit rs) (RQuest true (lit [t]))) (rs ++ [t])%list.
+Proof. exact prefix_shorter_first_refuted_all. Qed.
+Print Assumptions C11_prefix_shorter_first_all_refuted.
+
+(* x|hx => h?x is right whenever x is not a prefix of hx (then the two literals never match at the same place) *)
+Theorem C11_rule_factor_suffix_shorter_first_literal_partial : forall x h,
+  firstn (length x) (h :: x) <> x -> req (RAlt (lit x) (lit (h :: x))) (RCat (RQuest true (lit [h])) (lit x)).
+Proof. exact suffix_shorter_first_sound. Qed.
+Print Assumptions C11_rule_factor_suffix_shorter_first_literal_partial.
+
+(* ---------- the reported text is the text of the tree the theorems speak about ---------- *)
+
+(* for EVERY tree: what the walker writes to its buffer (and its score) is the print of the tree version *)
+Theorem C11_walk_text_is_print_of_tree : forall e,
+  pr_list (fst (walk_a true e)) = fst (walk true e) /\ snd (walk_a true e) = snd (walk true e).
+Proof. exact walk_print. Qed.
+Print Assumptions C11_walk_text_is_print_of_tree.
+
+(* the rewrite reported by the two-pass driver is the text of final_tree (the tree of C11_simplify_final_sound_partial) *)
+Theorem C11_final_text_is_print_of_final_tree : forall pat t1 t2f final,
+  simplify2 pat t1 t2f = Some final -> final = print (final_tree t1 (t2f (simplify1 t1))).
+Proof. exact final_text. Qed.
+Print Assumptions C11_final_text_is_print_of_final_tree.
+
+(* what is emitted for an operand that elaborates is never a flag-only group (so no guard about it is needed) *)
+Theorem C11_emitted_operand_is_operand : forall x st r, den x st = Some r -> op_eqb (sx_op x) OpFlagOnlyGroup = false ->
+  op_eqb (sx_op (seq_node (fst (walk_a true x)))) OpFlagOnlyGroup = false.
+Proof. exact emits_operand_holds. Qed.
+Print Assumptions C11_emitted_operand_is_operand.
